@@ -3,6 +3,7 @@
    context the checker traverses with separate code. The verdict is the rule table itself
    (language/explanation/{error_handling,enums,models_and_classes,derives_and_traits}.md): the
    `bad` variant of every rule must be rejected in every context, its `good` twin accepted.
+     R5unpack            writing a name bound by tuple unpacking (`a, b = t`), which is not declared `mut`
      R7field / R7index   mutating a field / an element through a binding not declared `mut`
      R8                  `?` applied to a value that is not a Result
      R9                  `?` whose error type is incompatible with the function's error type
@@ -13,7 +14,7 @@
      R12requires-stacked     the missing field is named by the SECOND of two stacked `@requires` decorators
      R12method-second-trait  the missing method belongs to the SECOND adopted trait (`with A, B`) *)
 EXTENDS Integers, Sequences, TLC, Json
-StmtRules == {"R7field", "R7index", "R8", "R9", "R10enum", "R10option", "R10result", "R10guard-enum", "R10guard-option",
+StmtRules == {"R5unpack", "R7field", "R7index", "R8", "R9", "R10enum", "R10option", "R10result", "R10guard-enum", "R10guard-option",
               "R11missing", "R11dup", "R11unknown"}
 DeclRules == {"R12method", "R12requires", "R12requires-stacked", "R12method-second-trait"}
 Blocks == {"if", "elif", "else", "while", "for", "case", "arrow"}
@@ -23,12 +24,15 @@ DeclHosts == {"model", "class"}
 \* precedes a construct may switch its rule off (a checker keeps per-function state - the expected error type of `?`, the
 \* set of mutable bindings, the loop flag - and every one of these statement forms touches some of it)
 Pres == {"none", "closure", "listcomp", "dictcomp", "match-stmt", "for-loop", "try-ok", "nested-call", "if-else"}
+\* what stands BEFORE the host function: the rules are per function, so nothing an EARLIER function declares may switch a rule off
+\* in a later one ("mut-same-names": an earlier function declares, as `mut`, every name the offending statement writes through)
+PreFns == {"none", "mut-same-names"}
 CONSTANT MaxNest
-VARIABLES rule, host, kinds, pre
-Init == \/ rule \in StmtRules /\ host \in Hosts /\ kinds = <<>> /\ pre \in Pres
-        \/ rule \in DeclRules /\ host \in DeclHosts /\ kinds = <<>> /\ pre = "none"
-Next == rule \in StmtRules /\ Len(kinds) < MaxNest /\ \E b \in Blocks : kinds' = Append(kinds, b) /\ UNCHANGED <<rule, host, pre>>
+VARIABLES rule, host, kinds, pre, prefn
+Init == \/ rule \in StmtRules /\ host \in Hosts /\ kinds = <<>> /\ pre \in Pres /\ prefn \in PreFns
+        \/ rule \in DeclRules /\ host \in DeclHosts /\ kinds = <<>> /\ pre = "none" /\ prefn = "none"
+Next == rule \in StmtRules /\ Len(kinds) < MaxNest /\ \E b \in Blocks : kinds' = Append(kinds, b) /\ UNCHANGED <<rule, host, pre, prefn>>
 \* the table: a `bad` variant is ill-typed whatever the context, a `good` variant well-typed
 Verdict(variant) == variant = "good"
-Emit == PrintT(<<"CASE", ToJson([rule |-> rule, host |-> host, kinds |-> kinds, pre |-> pre, bad_accept |-> Verdict("bad"), good_accept |-> Verdict("good")])>>)
+Emit == PrintT(<<"CASE", ToJson([rule |-> rule, host |-> host, kinds |-> kinds, pre |-> pre, prefn |-> prefn, bad_accept |-> Verdict("bad"), good_accept |-> Verdict("good")])>>)
 =============================================================================
